@@ -411,7 +411,7 @@ func c08Run(c *Case) {
 	nl := len(c08LongProgs)
 	switch {
 	case i < nl:
-		c08LongRun(c, c08LongProgs[i], 5000)
+		c08LongRun(c, c08LongProgs[i], 10000) // more completed calls / matches / nexts (>= 5000 of each) than the depth limit
 	case i < nl+len(c08Runaway):
 		c08Refusal(c, i-nl)
 		if i == nl {
@@ -450,7 +450,7 @@ func c08Run(c *Case) {
 func init() {
 	register(&Prop{
 		ID: "C08", Level: "exploration",
-		Rule: "sampled: programs with 1-4 generated functions (arity 0-4, called with too few / exact / too many arguments in every expression position, parameter reassignment, callee locals, global updates, container parameters with element stores, returns from loops and match blocks, nested calls) plus a recursion library (fact, fib, mutual even/odd, ackermann, sumto up to depth 900); after every call the caller prints its own state and probes every callee name with `is unknown`; trace vs reference model, plus the frame automaton M4 (depth at each rule start equals the baseline). Enumerated: 8 long-history programs over 5000 elements (thorough: up to 50000) whose result is compared with the model, and 5 runaway-recursion shapes whose refusal depth must be identical after 0/1/10/5000 completed calls. Non-trivial = >= 3 calls and an arity mismatch or recursion; long runs and probes count as non-trivial.",
+		Rule: "sampled: programs with 1-4 generated functions (arity 0-4, called with too few / exact / too many arguments in every expression position, parameter reassignment, callee locals, global updates, container parameters with element stores, returns from loops and match blocks, nested calls) plus a recursion library (fact, fib, mutual even/odd, ackermann, sumto up to depth 900); after every call the caller prints its own state and probes every callee name with `is unknown`; trace vs reference model, plus the frame automaton M4 (depth at each rule start equals the baseline). Enumerated: 8 long-history programs over 10000 elements (thorough: up to 50000) whose result is compared with the model, and 5 runaway-recursion shapes whose refusal depth must be identical after 0/1/10/5000 completed calls. Non-trivial = >= 3 calls and an arity mismatch or recursion; long runs and probes count as non-trivial.",
 		NumCases:      c08Cases,
 		Run:           c08Run,
 		MinConclusive: func(tier string) int { return 3000 },
